@@ -69,8 +69,12 @@ CLAIMS = {
     "C17": ("Lean theorems: the receiver (process_from_remote model, any message stream) passes on exactly the events before the first terminating message and then one notice, "
             "nothing of a written-off worker afterwards, an undecodable message marks the worker down at once; worker_errordown (any scheduler): a death the scheduler does not know is "
             "swallowed, counted and replaced per budget; it can raise only if remove_node raises something other than KeyError, the crash hook raises, or the node is not active. "
-            "Partial: no-stand-off and exactly-once after lifecycle crashes are validated by the whole-system simulation, not proved",
-            "receiver model theorems by induction over the message stream, handler case analysis (Lean 4) ; differential correspondence of the real process_from_remote; whole-system simulation with deaths at every lifecycle point and undecodable messages"),
+            "Whole system, --dist load (every worker collects the same non-empty list, no undecodable message): in every reachable state the iteration of the controller loop that handles "
+            "the oldest event of any worker - ready, collection, completion, report, log event, death notice, and workerfinished with exit status 2 / a stop request / an unknown node - "
+            "returns: no AssertionError, KeyError, ValueError, IndexError, ZeroDivisionError, TypeError (C17_sys_load_events_never_raise, C17_sys_load_workerfinished_never_raises_partial); "
+            "no stand-off at any stage incl. start-up deaths is C02_sys_load_no_standoff_any_phase; exactly-once after crashes is C03_sys_load_accounting_at_end. "
+            "Partial: workerfinished of a registered worker that finished normally (assert not crashitem) and the other modes are validated by the whole-system simulation, not proved",
+            "receiver model theorems by induction over the message stream, handler case analysis; whole-system invariant layers + totality of the scheduler functions under them (Lean 4) ; differential correspondence of the real process_from_remote; whole-system simulation with deaths at every lifecycle point and undecodable messages"),
     "C04": ("Lean theorems: per worker the receiver posts the worker's events exactly once in the order sent; a test report is published tagged with its worker and counted once; "
             "for any sequence of collection reports from any workers the published ones are the distinct texts in first-occurrence order, each counted once. Partial: field fidelity of "
             "reports and the tally equality with a single-process run are validated on real runs",
